@@ -417,6 +417,8 @@ H("conn_off_path_challenge_native", ["C07"], "replay-only", "connection::off_pat
   [("n", "u8")], 4, [], ["Connection::handle_event", "Connection::process_payload", "Connection::poll_transmit", "PathResponses"], "native demonstration / replay body of E2 slice query e2_off_path_response_slice")
 H("streams_stop_then_reset_credit_native", ["C06"], "replay-only", "connection::streams::stop_then_reset_credit_native",
   [("buffered", "u8"), ("extra", "u8")], 4, [], ["RecvStream::stop", "StreamsState::received_reset", "StreamsState::add_read_credits"], "native demonstration / replay body: credit after stop + RESET_STREAM")
+H("conn_handle_coalesced_credit_native", ["C07"], "replay-only", "connection::handle_coalesced_credit_native",
+  [("k", "u8")], 4, [], ["Connection::handle_event", "Connection::handle_coalesced"], "native replay body of E2 queries e2_handle_coalesced_credit / e2_handle_coalesced_loop_body_slice")
 H("conn_peer_params_cid_auth_native", ["C14", "C04"], "replay-only", "connection::peer_params_cid_auth_native",
   [("server", "bool"), ("which", "u8")], 4, [], ["Connection::handle_peer_params"], "native replay body of E2 query e2_peer_params_cid_auth")
 
